@@ -671,6 +671,9 @@ func runAxiomEmpty(p *Program, r *RuleResult) {
 		fs := view.FactsAt(b)
 		ex1, exMany, zero := false, false, false
 		for f := range fs {
+			if f.v == ssa.Value(lin.Params[0]) && f.k == factNil {
+				zero = true // a nil map is an empty context
+			}
 			bo, isB := f.v.(*ssa.BinOp)
 			if !isB {
 				continue
